@@ -1,13 +1,44 @@
 import Driver.Util
 import Driver.Ops.L2
 import Asn1cModel.L2.Oer
+import Asn1cModel.L2.OerVariants
 namespace Driver.Ops.L2Oer
 open Asn1c Asn1c.L2 Asn1c.L2.Oer Driver
+open Asn1c.L2.OerVar (VSt Kind encV permSetOf)
+
+
+/-- `-` = absent, `e` = present with empty contents, `<hex>` = present with these contents -/
+def parseExtra (s : String) : Option (List (Option Bytes)) :=
+  (s.splitOn ",").mapM fun w =>
+    if w == "-" then some none else if w == "e" then some (some []) else (parseHex w).map some
+
+/-- `<kind>[:<param>]` and `<index>[+]` → the variant selector (`setof` is a value permutation, not a `Kind`) -/
+def parseVar (kind idx : String) : Option (VSt × Bool) :=
+  let (k, p) := match kind.splitOn ":" with
+    | [k] => (k, "0")
+    | [k, p] => (k, p)
+    | _ => ("?", "0")
+  let (all, istr) := if idx.endsWith "+" then (true, (idx.dropEnd 1).toString) else (false, idx)
+  match istr.toNat? with
+  | none => none
+  | some i =>
+    let mk (kd : Kind) : Option (VSt × Bool) := p.toNat?.map fun n => ({ kind := kd, skip := i, all := all, param := n }, false)
+    if k == "none" then some ({}, false)
+    else if k == "bool" then mk .boolTrue
+    else if k == "enum" then mk .enumLong
+    else if k == "len" then mk .lenLong
+    else if k == "older" then mk .older
+    else if k == "newer" then (parseExtra p).map fun ex => ({ kind := .newer, skip := i, all := all, extra := ex }, false)
+    else if k == "setof" then p.toNat?.map fun n => ({ kind := .none, skip := i, all := all, param := n }, true)
+    else none
 
 /-- `@Type l2enc oer <val>` → `ok <hex>` | `fail`   (canonical OER, X.696)
     `@Type l2enc oer-unsorted <val>`               (SET OF elements in the given order: classifies F55)
     `@Type l2dec oer <hex>` → `ok <consumed> <val>` | `more` | `fail`
-    `@Type l2oty` → the OER view of the type -/
+    `@Type l2oty` → the OER view of the type
+    `@Type l2encvar oer <kind>[:<param>] <index>[+] <val>` → `ok <hex>` | `same` | `fail`: the BASIC-OER encoding with
+      the variation `kind` ∈ none | bool:<n> | enum | len:<pad> | older:<n> | newer:<-|e|hex,…> | setof:<rot> applied at the
+      `index`-th applicable position (`+`: and at all later ones); `same` = no applicable position / nothing changed -/
 def run (ctx : ModCtx) (tyName : String) : List String → String
   | "l2enc" :: syn :: vwords =>
     match resolveONamed ctx tyName, (Sexp.parseWords vwords).bind parseVal with
@@ -26,6 +57,17 @@ def run (ctx : ModCtx) (tyName : String) : List String → String
       | .fail => "fail"
     | none, _ => "unsupported-type"
     | _, none => "bad-hex"
+  | "l2encvar" :: _ :: kind :: idx :: vwords =>
+    match resolveONamed ctx tyName, (Sexp.parseWords vwords).bind parseVal, parseVar kind idx with
+    | some t, some v, some (s, perm) =>
+      let v' := if perm then (permSetOf t v (s.skip, s.all, s.param)).1 else v
+      match encV t v {}, encV t v' s with
+      | some (base, _), some (bs, s') =>
+        if (s'.hits = 0 && !perm) || (bs == base && kind != "none") then "same" else "ok " ++ toHex bs
+      | _, _ => "fail"
+    | none, _, _ => "unsupported-type"
+    | _, none, _ => "bad-value"
+    | _, _, none => "bad-variant"
   | ["l2oty"] =>
     match resolveONamed ctx tyName with
     | some t => reprStr t
@@ -37,6 +79,7 @@ def oerHandler : Driver.Ops.L2.SubHandler := fun ctx ty toks =>
   | "l2enc" :: "oer" :: _ => some (run ctx ty toks)
   | "l2enc" :: "oer-unsorted" :: _ => some (run ctx ty toks)
   | ["l2dec", "oer", _] => some (run ctx ty toks)
+  | "l2encvar" :: "oer" :: _ :: _ :: _ => some (run ctx ty toks)
   | ["l2oty"] => some (run ctx ty toks)
   | _ => none
 
